@@ -18,14 +18,20 @@ SPEC = {
         # generated CREATE / DELETE / RENAME / SUBSCRIBE / UNSUBSCRIBE + connector mailbox updates; tie to
         # Model/NamespaceSubs.lean (result classes, final LIST/LSUB), reference rules (judge-c14-nsops) and RFC selection
         # of every LIST/LSUB answer (judge-c14-wirelist). Directed histories: corpus/C14/*.namespace
-        {"name": "c14namespace", "quick_args": ["-n", "150", "-steps", "10", "-queries", "6"],
-         "thorough_args": ["-n", "10000", "-steps", "12", "-queries", "8"], "timeout": 2400},
+        # After EVERY op the full namespace is read back (LIST "" "*", LSUB "" "*", STATUS (MESSAGES) of every selectable
+        # name; marker messages are APPENDed) and compared with the model's prediction for that step (dialect
+        # namespace-trace). Every second sequence is a "sibling hierarchy" sequence: 2-4 sibling names that a loose
+        # string comparison confuses (ASCII / non-ASCII letter case, prefix without delimiter, LIKE / glob / regexp
+        # metacharacters, blanks, INBOX spellings below the first level), each with inferiors of the same relative
+        # names, then RENAME / DELETE / (UN)SUBSCRIBE / CREATE of one of them, also onto a sibling spelling.
+        {"name": "c14namespace", "quick_args": ["-n", "200", "-steps", "10", "-queries", "6"],
+         "thorough_args": ["-n", "6000", "-steps", "12", "-queries", "8"], "timeout": 2400},
     ],
     "trusted_base": [
         "Lean 4.33.0 kernel; axioms limited to propext, Classical.choice, Quot.sound (audited per theorem)",
         "hand-written model GluonModel/Model/Match.lean of match/matchRoot/canon/getMatches/prepareMatch (internal/state/match.go) and listSuperiors/listInferiors (internal/state/paths.go), tied by the dialects match, match-small (exhaustive small universe), match-baddelim, superiors, inferiors, getmatches (differential testing, not proof)",
         "the model replaces `regexp` by a backtracking matcher over the item list (literal | .* | [^d]*): Go's leftmost-first semantics, QuoteMeta and the textual ReplaceAll steps are argued in the model's header and exercised by the correspondence, not proved",
-        "names-level model GluonModel/Model/Namespace.lean of handleCreate/handleDelete/handleRename + State.Create/Delete/Rename (theorems of Theorems/C14Namespace.lean): NOT tied by a correspondence of this check (no database-free hook); its model side is the dialect `namespace` (Driver/DNamespace.lean) for the wire-level oracle; it agreed with the whole server over TCP on 4 800 generated command sequences in a throwaway run",
+        "names-level model GluonModel/Model/Namespace.lean of handleCreate/handleDelete/handleRename + State.Create/Delete/Rename (theorems of Theorems/C14Namespace.lean): NOT tied by a correspondence of this check (no database-free hook); its extension GluonModel/Model/NamespaceSubs.lean (subscriptions, remote ids, connector updates, marker-message counts) is tied to the whole server over TCP by the oracle c14namespace: reply class of every command and the full namespace (LIST, LSUB, STATUS MESSAGES) after every step (differential testing, not proof)",
         "reference semantics GluonModel/Spec/Wildcard.lean (RFC 3501 wildcard relation, hierarchy levels, LIST/LSUB selection) is the definition of 'correct'",
         "facts translator harness/facts_match.go (go/ast): pieces of the regular expression in func match; what func canon looks at (split[0] only); State.List passes only subscribed mailboxes in LSUB mode",
         "verif hooks internal/state/verif_export_match.go (VerifMatch, VerifListSuperiors, VerifListInferiors, VerifGetMatches with recent count 0)",
@@ -34,8 +40,9 @@ SPEC = {
         "strings are valid UTF-8 (List Char); the hierarchy delimiter is a single character; empty and multi-character delimiters are not modelled",
         "reference/pattern that is not valid UTF-8: outside the Lean model; the driver answers `no match` for them (regexp.Compile error) and the judge requires exactly that",
         "lsub_exact: getMatches in LSUB mode is called with subscribed mailboxes only (State.List; fact lsub_input_fact)",
-        "namespace model: one session, connector accepts every request, no mailbox-count limit, names are ASCII (modified UTF-7 = identity), subscriptions and connector-originated mailbox updates not modelled",
-        "SUBSCRIBE/UNSUBSCRIBE, connector updates, modified UTF-7 and the wire rendering of LIST responses are not covered here; they are the wire-level oracle's job",
+        "namespace model of the theorems (Model/Namespace.lean): one session, connector accepts every request, no mailbox-count limit, names are lists of characters compared exactly (modified UTF-7 = identity), subscriptions and connector-originated mailbox updates not modelled",
+        "SUBSCRIBE/UNSUBSCRIBE, connector updates, message counts, modified UTF-7 and the wire rendering of LIST responses are covered by the wire-level oracle and Model/NamespaceSubs.lean only (no theorems about them)",
+        "the step-by-step tie of the oracle stops at the first command that fails with a raw SQLite error or whose refusal is followed by the connector's echo (known findings): after that the connector's state is outside the model",
     ],
     "explanation": "Lean theorems: match = RFC 3501 wildcard matching at full strength (all references, patterns, names, delimiters), listSuperiors/listInferiors = hierarchy levels, getMatches = exactly the selected names with \\Noselect for pure parents, for every map iteration order; model tied to the real functions by exhaustive + generated differential testing; the RFC judge is evaluated on the implementation's answers",
 }
